@@ -160,6 +160,15 @@ def canon(v, depth=0):
         return ["exc", t.__name__, v.k]
     if isinstance(v, (ProgErr, OtherErr)):
         return ["exc", t.__name__, v.site, v.n]
+    if t.__name__ == "PteraNameError":
+        try:
+            info = v.info()
+            ann = info.get("annotation")
+            extra = [repr(ann) if not isinstance(ann, type) else ann.__name__, info.get("provenance")]
+        except Exception as e:  # info() not available
+            extra = ["info-failed", type(e).__name__]
+        return ["exc", "PteraNameError", v.varname,
+                getattr(v.function, "__qualname__", None)] + extra
     if isinstance(v, BaseException):
         return ["exc", t.__name__, [canon(a, depth + 1) for a in v.args][:3]]
     if isinstance(v, EnvObj):
